@@ -569,8 +569,20 @@ Section RoundTrip.
   Hypothesis dbl_neg : forall q, q <= 0 -> dbl q <= 0.
   Hypothesis dbl_compat : forall q q', q == q' -> dbl q == dbl q'.
 
-  Lemma parse_render lx : wf lx -> parse_num dbl (render lx) = Some (lx, to_value dbl lx).
-  Proof. intros H. unfold parse_num. rewrite split_render by assumption. reflexivity. Qed.
+  Lemma parse_render lx :
+    wf lx -> to_value dbl lx <> PyInf -> parse_num dbl (render lx) = Some (lx, to_value dbl lx).
+  Proof.
+    intros H Hi. unfold parse_num. rewrite split_render by assumption.
+    destruct (to_value dbl lx); try reflexivity. congruence.
+  Qed.
+
+  (* a fraction whose magnitude reaches the binary64 overflow threshold is rejected (not well-formed) *)
+  Lemma parse_overflow lx :
+    wf lx -> lfrac lx <> None -> ovf_threshold <= Qabs (lex_Q lx) -> parse_num dbl (render lx) = None.
+  Proof.
+    intros H Hf Ho. unfold parse_num. rewrite split_render by assumption. unfold to_value.
+    destruct (lfrac lx); [|congruence]. apply Qle_bool_iff in Ho. rewrite Ho. reflexivity.
+  Qed.
 
   Lemma to_value_spec lx :
     wf lx -> Qabs (lex_Q lx) <= maxq ->
@@ -636,8 +648,9 @@ Section RoundTrip.
       assert (Hb1 : 1 <= inject_Z (10 ^ 300)) by (vm_compute; discriminate).
       split; lra. }
     pose proof (stored_err lx' Hw' HQ1) as He3. fold Q1 in He3.
+    destruct (to_value_spec lx' Hw' HQ1) as (Hinf' & _).
     exists lx', (to_value dbl lx'). split.
-    - unfold roundtrip, ser_lex. rewrite Hser. apply parse_render. assumption.
+    - unfold roundtrip, ser_lex. rewrite Hser. apply parse_render; assumption.
     - split; [|exact Hunit].
       set (v' := pyq (to_value dbl lx')) in *.
       apply Qabs_Qle_condition in He3.
@@ -712,9 +725,9 @@ Section RoundTrip.
       - intros H. apply Hsn. rewrite HN. unfold Qle. cbn. lia. }
     assert (HQ1 : lex_Q lx' == Q0) by (rewrite Hq, Hex, HN; reflexivity).
     assert (HQ1r : Qabs (lex_Q lx') <= maxq) by (rewrite HQ1; exact Hr').
-    destruct (to_value_spec lx' Hw' HQ1r) as (_ & Hint' & Hflt' & _).
+    destruct (to_value_spec lx' Hw' HQ1r) as (Hinf' & Hint' & Hflt' & _).
     exists lx', (to_value dbl lx'). split; [|split; [exact HQ1|split; [|exact Hunit]]].
-    - unfold roundtrip, ser_lex. rewrite Hser. apply parse_render. assumption.
+    - unfold roundtrip, ser_lex. rewrite Hser. apply parse_render; assumption.
     - destruct (lfrac lx') eqn:Ef'.
       + rewrite Hflt' by discriminate. cbn [pyq].
         destruct (lfrac lx) eqn:Ef.
